@@ -707,15 +707,30 @@ func (idx *indexer) indexSince(txID uint64) error {
 						txmd = prevTxHdr.Metadata.Bytes()
 					}
 
-					var kvmd *KVMetadata
+					// the metadata read back from the tx log is read-only: the tombstone gets
+					// a metadata of its own, carrying the attributes of the replaced entry
+					kvmd := NewKVMetadata()
 
-					if prevEntry.Metadata() != nil {
-						kvmd = prevEntry.Metadata()
-					} else {
-						kvmd = NewKVMetadata()
+					if prevMD := prevEntry.Metadata(); prevMD != nil {
+						if prevMD.IsExpirable() {
+							expTime, err := prevMD.ExpirationTime()
+							if err != nil {
+								return err
+							}
+
+							err = kvmd.ExpiresAt(expTime)
+							if err != nil {
+								return err
+							}
+						}
+
+						err = kvmd.AsNonIndexable(prevMD.NonIndexable())
+						if err != nil {
+							return err
+						}
 					}
 
-					kvmd.AsDeleted(true)
+					err = kvmd.AsDeleted(true)
 					if err != nil {
 						return err
 					}
